@@ -46,6 +46,9 @@ RULE = ('correspondence: (a) FST._put_src on a real root, exhaustively over smal
         'pars values, each per call, in FST.options() and after FST.set_options(): equal outcomes), judged with tokenize and '
         'line comparison only. distinct = distinct inputs; non-trivial = output differs from input')
 TRUSTED = [
+    'pure insertions: a comment must keep following the same code on its line only where that is unambiguous (the previous element '
+    'starts its own line); appending to an UNDELIMITED tuple puts the new element in front of a comment that follows the last element '
+    '(the comment is outside the container): not judged',
     'modelled: fst_core._put_src (5 cases, source part) and _get_src, _params_offset on characters and bytes (bistr.c2b); '
     'fst_trivia.leading_trivia, trailing_trivia (incl. the one-line next_frag(comment=True) they use), get_trivia_params; '
     'fst_options._check_opt_trivia; regexes re_empty_line, re_comment_line_start, re_empty_line_or_cont, '
@@ -359,7 +362,11 @@ def _programs(ctx, n, stdlib):
 
 
 def _run_sweep(ctx, progs, per):
-    res = pmap(co.edit_cases, [(p, ctx.rng.randrange(1 << 30), per) for p in progs])
+    # deterministic product first: comma-separated containers (sequences, key: value containers, undelimited subscript tuple) x
+    # element shapes x comment layouts x delete / insert at every position x trivia values
+    xp = co.expr_product()
+    res = pmap(co.expr_product_cases, [xp[i::32] for i in range(32)])
+    res += pmap(co.edit_cases, [(p, ctx.rng.randrange(1 << 30), per) for p in progs])
     # two-step histories (replace an expression by a call, then edit a child of the new node), multi-byte text before the target
     res += pmap(co.two_step_cases, [(p, ctx.rng.randrange(1 << 30), max(3, per // 2)) for p in progs])
     # pure insertion into every empty optional block x decorations of the preceding last statement x nesting (whole product)
